@@ -1747,6 +1747,12 @@ def run(tier):
                      'the registry one strategy has pruned or specialised (an excluded mutator popped, an instance restricted to one command) is the registry the next one builds its passes from: enabled mutators are missing from the passes')
 
     chk.guard(_memo_rule, chk, prog)
+    from . import c02 as _c02b
+    sub02b = Check('C02', 'other', tier, [], [])
+    chk.guard(_c02b.rule_r17, sub02b, prog)
+    chk.adopt('C14.R17', 'the last hierarchical pass that runs is the last '
+              'pass get_passes() lists - the one with every enabled mutator '
+              '(shared with C02.R17)', sub02b)
     extra = None
     if tier == 'thorough':
         from .. import selftest
